@@ -8,6 +8,7 @@ import (
 	"fmt"
 	"sort"
 	"strings"
+	"sync"
 	"time"
 
 	"github.com/failsafe-go/failsafe-go"
@@ -51,6 +52,8 @@ type Runner struct {
 	MW      *ModelWorld
 	fire    bool
 	execSeq int64
+	exOnce  sync.Once
+	ex      failsafe.Executor[int]
 	held    map[int]int // standalone bulkhead permits held by the harness, per instance
 	Ended   bool        // a discard or a lenient execution ended the history
 }
@@ -256,21 +259,25 @@ func (r *Runner) runReal(st Step, id int64) *RealResult {
 		}
 		return o.V, o.Err()
 	}
-	pols := make([]failsafe.Policy[int], len(r.Sc.Stack))
-	for i, p := range r.Sc.Stack {
-		pols[i] = w.Insts[p].Pol
-	}
-	ex := failsafe.NewExecutor[int](pols...).WithContext(ctx)
-	if !w.NoListeners {
-		done := func(name string) func(failsafe.ExecutionDoneEvent[int]) {
-			return func(e failsafe.ExecutionDoneEvent[int]) {
-				en := w.Rec.Info(PolExecutor, name, e.ExecutionInfo)
-				en.HasRes, en.Res, en.Err = true, e.Result, e.Error
-				w.Rec.add(en)
-			}
+	// one Executor per scenario, shared by all its executions (sequential or concurrent); WithContext returns a copy
+	r.exOnce.Do(func() {
+		pols := make([]failsafe.Policy[int], len(r.Sc.Stack))
+		for i, p := range r.Sc.Stack {
+			pols[i] = w.Insts[p].Pol
 		}
-		ex = ex.OnSuccess(done("OnSuccess")).OnFailure(done("OnFailure")).OnDone(done("OnDone"))
-	}
+		r.ex = failsafe.NewExecutor[int](pols...)
+		if !w.NoListeners {
+			done := func(name string) func(failsafe.ExecutionDoneEvent[int]) {
+				return func(e failsafe.ExecutionDoneEvent[int]) {
+					en := w.Rec.Info(PolExecutor, name, e.ExecutionInfo)
+					en.HasRes, en.Res, en.Err = true, e.Result, e.Error
+					w.Rec.add(en)
+				}
+			}
+			r.ex = r.ex.OnSuccess(done("OnSuccess")).OnFailure(done("OnFailure")).OnDone(done("OnDone"))
+		}
+	})
+	ex := r.ex.WithContext(ctx)
 	entry := st.Entry
 	if r.fire && entry%2 == 0 {
 		entry++ // blocking needs the Execution: use the WithExecution variant
